@@ -1,7 +1,101 @@
-//! C20 operations (op names start with `c20.`)
-#[allow(unused_imports)]
+//! C20 — integer square root (op names start with `c20.`)
+//!   c20.u.<form> <limbs> <hex>   Uint<limbs>, limbs in {1,2,3,4,8,16} (+ the other `with_n!` widths)
+//!   c20.b.<form> <limbs> <hex>   BoxedUint with <limbs> limbs (1..=20 generated; any count accepted)
+//! forms: sqrt, sqrt_vartime, wrapping_sqrt, wrapping_sqrt_vartime, checked_sqrt,
+//!        checked_sqrt_vartime, trait_sqrt, trait_sqrt_vartime (SquareRoot trait), rounds
+//! `rounds` replays the Newton iteration with the crate's own public operations (shl, div, add, shr)
+//! from the documented initial guess and reports the first index at which the crate's `sqrt` value is
+//! reached, plus `log2_bits` (the fixed count of the ct form is `log2_bits + 2`).
 use crate::util::*;
+use crypto_bigint::{BitOps, BoxedUint, NonZero, SquareRoot, Uint};
 
-pub fn dispatch(_op: &str, _a: &[&str]) -> Option<String> {
-    None
+const ROUNDS_CAP: u32 = 100_000;
+
+fn fixed<const N: usize>(form: &str, x: &str) -> Option<String> {
+    let x = arg!(uint::<N>(x));
+    Some(match form {
+        "sqrt" => uhex(&x.sqrt()),
+        "sqrt_vartime" => uhex(&x.sqrt_vartime()),
+        "wrapping_sqrt" => uhex(&x.wrapping_sqrt()),
+        "wrapping_sqrt_vartime" => uhex(&x.wrapping_sqrt_vartime()),
+        "checked_sqrt" => {
+            let r: Option<Uint<N>> = x.checked_sqrt().into();
+            r.map(|v| uhex(&v)).unwrap_or("none".into())
+        }
+        "checked_sqrt_vartime" => {
+            let r: Option<Uint<N>> = x.checked_sqrt_vartime().into();
+            r.map(|v| uhex(&v)).unwrap_or("none".into())
+        }
+        "trait_sqrt" => uhex(&<Uint<N> as SquareRoot>::sqrt(&x)),
+        "trait_sqrt_vartime" => uhex(&<Uint<N> as SquareRoot>::sqrt_vartime(&x)),
+        "rounds" => {
+            let s = x.sqrt();
+            let mut cur = Uint::<N>::ONE.shl((x.bits() + 1) >> 1);
+            let mut j = 0u32;
+            while cur != s && j < ROUNDS_CAP {
+                let nz: Option<NonZero<Uint<N>>> = NonZero::new(cur).into();
+                cur = match nz {
+                    Some(nz) => cur.wrapping_add(&x.wrapping_div(&nz)).shr(1),
+                    None => cur,
+                };
+                j += 1;
+            }
+            format!("{} {}", j, BitOps::log2_bits(&x))
+        }
+        _ => return None,
+    })
+}
+
+fn boxed_form(form: &str, n: usize, x: &str) -> Option<String> {
+    let x = arg!(boxed(x, n));
+    Some(match form {
+        "sqrt" => bhexlen(&x.sqrt()),
+        "sqrt_vartime" => bhexlen(&x.sqrt_vartime()),
+        "wrapping_sqrt" => bhexlen(&x.wrapping_sqrt()),
+        "wrapping_sqrt_vartime" => bhexlen(&x.wrapping_sqrt_vartime()),
+        "checked_sqrt" => {
+            let r: Option<BoxedUint> = x.checked_sqrt().into();
+            r.map(|v| bhexlen(&v)).unwrap_or("none".into())
+        }
+        "checked_sqrt_vartime" => {
+            let r: Option<BoxedUint> = x.checked_sqrt_vartime().into();
+            r.map(|v| bhexlen(&v)).unwrap_or("none".into())
+        }
+        "trait_sqrt" => bhexlen(&<BoxedUint as SquareRoot>::sqrt(&x)),
+        "trait_sqrt_vartime" => bhexlen(&<BoxedUint as SquareRoot>::sqrt_vartime(&x)),
+        "rounds" => {
+            let s = x.sqrt();
+            let mut cur = BoxedUint::one_with_precision(x.bits_precision()).shl((x.bits() + 1) >> 1);
+            let mut j = 0u32;
+            while cur != s && j < ROUNDS_CAP {
+                let nz: Option<NonZero<BoxedUint>> = NonZero::new(cur.clone()).into();
+                cur = match nz {
+                    Some(nz) => cur.wrapping_add(&x.wrapping_div(&nz)).shr(1),
+                    None => cur,
+                };
+                j += 1;
+            }
+            format!("{} {}", j, x.log2_bits())
+        }
+        _ => return None,
+    })
+}
+
+pub fn dispatch(op: &str, a: &[&str]) -> Option<String> {
+    let parts: Vec<&str> = op.split('.').collect();
+    match (parts.as_slice(), a) {
+        (["c20", "u", form], [n, x]) => {
+            let n = arg!(dec(n));
+            with_n!(n, fixed, form, x)
+        }
+        (["c20", "b", form], [n, x]) => {
+            let n = arg!(dec(n));
+            if n == 0 {
+                return Some(BAD.to_string());
+            }
+            boxed_form(form, n, x)
+        }
+        _ if op.starts_with("c20.") => Some(BAD.to_string()),
+        _ => None,
+    }
 }
